@@ -20,6 +20,17 @@ EXTRA = {
        "independent objects that share something behind the scenes; a result that is right but whose side effect on the "
        "caller's data or on later calls is wrong; an input that is legal but that no example in the repository uses. "
        "Two cooperating sites that each look fine alone are best."),
+ "6": ("This is round six: boundary slips, stale caches, pooled or shared buffers, dropped state updates, reuse of objects, "
+       "write-during-read interference and plain data races have all been tried. Read EVERY file in the anchor list to the end, "
+       "including helper functions, option/configuration fields, secondary constructors and conversion helpers between packages, "
+       "and look for behaviour that none of the earlier changes touched. Ideas: which ERROR comes back (its class / root cause) "
+       "rather than whether one comes back; what happens when a legal call sequence is made in an unusual ORDER (configure after "
+       "first use, close twice, read after an error, write after a failed write); a fault (short read, failed write) in the MIDDLE "
+       "of a multi-step operation; values legal by the specification that the library's own encoder never produces (decoder-only "
+       "paths); the SECOND and THIRD element where only the first is usually looked at (second signature, second recipient, second "
+       "NAL unit, second chunk stream, second window); interactions between two options; negative or zero durations / sizes that "
+       "are legal; behaviour that depends on map iteration order or on time. Prefer a change that a careful reviewer would "
+       "approve at a glance."),
 }
 os.makedirs("/tmp/m", exist_ok=True)
 for line in open(os.path.join(ROOT, "properties.jsonl")):
